@@ -78,7 +78,11 @@ fn sweep_n(n: usize, ls: &[usize], rec: &mut Rec) {
 }
 
 fn whole_body_loop(n: usize, total: usize, chunked: bool, rec: &mut Rec) {
-    let mut s = match body_sender(if chunked { None } else { Some(total as u64) }, false, false) {
+    // the sender is a POST, or one of four body-less methods with the escape hatch, in turn
+    let turn = (n + total / 1000) % 5;
+    let variant = if turn == 0 { 0u8 } else { 2 | ((turn as u8 - 1) << 5) };
+    rec.cov(if turn == 0 { "loop-sender/POST" } else { "loop-sender/despite-method" });
+    let mut s = match crate::drive::body_sender_ex(if chunked { None } else { Some(total as u64) }, false, false, variant) {
         Ok(s) => s,
         Err(e) => return rec.fail("C19/setup", e),
     };
@@ -122,7 +126,7 @@ impl Property for P {
         "C19"
     }
     fn rule(&self) -> String {
-        "consumed(L, n) of a single chunked write is measured with a fresh flow per call: must be >= 1 for L >= 1, n >= 6; >= consumed(min(L, max_input(n)), n); non-decreasing in L. Whole-body loops with a fixed buffer must finish within |body| iterations (bounded restatement of termination), chunked (n >= 6) and length-delimited (n >= 1). Sweep: every n in 6..=300 x every L in 1..=320, n around k*10248 +-16 with L up to 3 chunks, random pairs up to n = 11000. class = (L vs n-5) x hex digits of the chunk that fitted; loop classes by buffer size.".into()
+        "consumed(L, n) of a single chunked write is measured with a fresh flow per call: must be >= 1 for L >= 1, n >= 6; >= consumed(min(L, max_input(n)), n); non-decreasing in L. Whole-body loops with a fixed buffer must finish within |body| iterations (bounded restatement of termination), chunked (n >= 6) and length-delimited (n >= 1). Sweep: every n in 6..=300 x every L in 1..=320, n around k*10248 +-16 with L up to 3 chunks, random pairs up to n = 11000. The loop senders rotate over POST and GET/TRACE/DELETE/OPTIONS through the escape hatch; one loop sends 70 000 bytes through a 6-byte buffer (70 000 chunks). class = (L vs n-5) x hex digits of the chunk that fitted; loop classes by buffer size.".into()
     }
     fn assumptions(&self) -> Vec<String> {
         vec!["a non-finishing chunked write does not change writer state, so consumed(L, n) is measured on fresh flows".into()]
@@ -194,8 +198,14 @@ impl Property for P {
                 let n = LOOP_NS[i % LOOP_NS.len()];
                 let chunked = (i / LOOP_NS.len()) % 2 == 0;
                 let total = [1000usize, 25_000, 70_000][i / (LOOP_NS.len() * 2)];
-                if n < 32 && total > 25_000 {
-                    // keep tiny-buffer loops short: 70000/1 iterations adds nothing
+                if n == 6 && total > 25_000 {
+                    // the smallest buffer that can carry a chunk, one byte per chunk: a body that goes out in
+                    // more chunks than fit a 16-bit counter
+                    whole_body_loop(n, total, chunked, rec);
+                    if chunked {
+                        rec.cov("loop/chunked/more-than-65536-chunks");
+                    }
+                } else if n < 32 && total > 25_000 {
                     whole_body_loop(n, 5_000, chunked, rec)
                 } else {
                     whole_body_loop(n, total, chunked, rec)
@@ -212,6 +222,7 @@ impl Property for P {
             ("in>out-5/fitted-hexdigits=2".into(), 1_000),
             ("in>out-5/fitted-hexdigits=4".into(), 100),
             ("loop/chunked/tiny-buffer".into(), 3),
+            ("loop/chunked/more-than-65536-chunks".into(), 1),
             ("loop/chunked/multi-chunk-buffer".into(), 3),
             ("loop/sized/tiny-buffer".into(), 3),
         ]
